@@ -86,6 +86,9 @@ func (t WebsocketTransport) StartStream() (string, error) {
 // to process incoming control frames.
 func (t WebsocketTransport) startReader() {
 	go func() {
+		// This go routine is the only sender on the queue: closing it when reading ends (connection lost or
+		// closed) lets Read deliver what is still queued and then report the end, instead of blocking for ever.
+		defer close(t.queue)
 		for {
 			_, reader, err := t.wsConn.Reader(t.closeCtx)
 			if err != nil {
@@ -137,7 +140,10 @@ func (t *WebsocketTransport) Read(p []byte) (int, error) {
 	select {
 	case <-t.closeCtx.Done():
 		return 0, t.closeCtx.Err()
-	case data := <-t.queue:
+	case data, ok := <-t.queue:
+		if !ok {
+			return 0, io.EOF
+		}
 		if t.logFile != nil && len(data) > 0 {
 			_, _ = fmt.Fprintf(t.logFile, "RECV:\n%s\n\n", data)
 		}
